@@ -38,8 +38,13 @@ class Attenuated(Job):
     max_paths = 20000
     max_seconds = 1500
 
-    def __init__(self, n, check, period, minmode=None, step=None, canary=None):
+    def __init__(self, n, check, period, minmode=None, step=None, canary=None, steps=None):
         self.n, self.check, self.period, self.minmode, self.step, self.canary = n, check, period, minmode, step, canary
+        self.steps = steps          # concrete irregular steps (n-1 of them): the sampling step is their median
+        if steps is not None:
+            import statistics
+            self.step = int(statistics.median(steps))
+            step = f"irregular{tuple(steps)}"
         self.name = (f"attenuated n={n} check={check} period={'y' if period else 'n'} min={minmode}"
                      + (f" step={step}s" if step else "") + (f" CANARY={canary}" if canary else ""))
         if canary:
@@ -53,7 +58,15 @@ class Attenuated(Job):
         S = Struct()
         n = self.n
         S.x = V.floats("x", n, nan=True, lo=-1024, hi=1024)
-        if self.step:
+        if self.steps is not None:
+            t0 = V.time("t0")
+            from symex import calendar_model as cal
+            V.assume(t0.s + sum(self.steps) < cal.t_hi())
+            offs = [0]
+            for d in self.steps:
+                offs.append(offs[-1] + d)
+            S.t = [STime(t0.s + o) for o in offs[:n]]
+        elif self.step:
             t0 = V.time("t0")
             from symex import calendar_model as cal
             V.assume(t0.s + n * self.step < cal.t_hi())
@@ -161,6 +174,10 @@ def jobs(tier):
                 out.append(Attenuated(n, check, True, minmode))
         for n in (2, 3):
             out.append(Attenuated(n, check, True, "period", step=60))
+        # irregular sampling: the step that converts min_period into a number of observations is the *median* step
+        out.append(Attenuated(4, check, True, "period", steps=(10, 10, 50)))
+        if tier == "thorough":
+            out.append(Attenuated(4, check, True, "period", steps=(5, 60, 5)))
     out.append(Attenuated(2, "default", False))
     out.append(Attenuated(2, "variance", False))
     out.append(Attenuated(2, "Range", True))
